@@ -490,6 +490,9 @@ func init() {
 		genCtorOffline(g, true)
 	}
 	// C14: every structure with a constructor and a Validate: valid tuples and single-defect variants
+	// CLS2: constructed LeaseSet2s of every flag / offline-type / key / option shape: the C16 round trip on
+	// constructed values lives in that op
+	suites["CLS2"] = func(g *G) { genCtorLeaseSet2(g, false) }
 	// CTWIN: the constructor routes that have twins (identity constructors incl. the generated-padding one,
 	// EncryptedLeaseSet from a Destination): C19 twin oracles and the C10 layout oracle live in these ops
 	suites["CTWIN"] = func(g *G) {
